@@ -57,14 +57,16 @@ def r1(ctx):
     ctx.check("C11.R1", len(wclk) == 1, key(fn, "writer-clock"), site(fn), "the heartbeat timestamp is not taken from exactly one clock (%s)" % sorted(wclk), "writer clock %s" % sorted(wclk))
     ctx.check("C11.R1", all("fileno" in norm(c.args[0]) for c in ut), key(fn, "writes-own-fd"), site(fn), "the heartbeat is not written to the worker's own temp file descriptor", "utime(self._tmp.fileno(), ..)")
     fm = ctx.fn(repo.func(ARB + ".murder_workers"))
+    # the scanner's clock: what the heartbeat is subtracted from (`<clock>() - worker.tmp.last_update()`), wherever
+    # that difference is computed (in the comparison itself or into a temporary)
     rclk = set()
-    for t in fm.cfg.tests():
-        if "last_update" in norm(t.ast):
-            rclk |= set(clocks_in(repo, fm, t.ast))
-            for x in ast.walk(t.ast):
-                if isinstance(x, ast.Name):
-                    for s in stores_to_name(fm, x.id):
-                        rclk |= set(clocks_in(repo, fm, s.ast))
+    for x in walk_own(fm.node):
+        if isinstance(x, ast.BinOp) and isinstance(x.op, ast.Sub) and "last_update" in norm(x.right):
+            rclk |= set(clocks_in(repo, fm, x.left))
+            for y in ast.walk(x.left):
+                if isinstance(y, ast.Name):
+                    for s_ in stores_to_name(fm, y.id):
+                        rclk |= set(clocks_in(repo, fm, s_.ast))
     ctx.check("C11.R1", len(rclk) == 1 and rclk == wclk, key(fm, "same-clock"), site(fm),
               "murder_workers compares the heartbeat (written with %s) against %s: a healthy worker looks hung or a hung one healthy" % (sorted(wclk), sorted(rclk)), "scanner clock == writer clock %s" % sorted(rclk))
     fl = ctx.fn(repo.func(TMP + ".last_update"))
